@@ -34,13 +34,28 @@ impl<R> View for ZipReader<R> {
 pub struct ZipError { pub _p: () }
 pub type ZipResult<T> = core::result::Result<T, ZipError>;
 
-/// name of the manifest entry (crates/archive/src/lib.rs:14 `ARCHIVE_MANIFEST`)
-pub open spec fn manifest_name() -> Seq<char> { "sos-manifest.json"@ }
-
 /// `serde_json::from_slice::<T>` for the manifest types: an uninterpreted
 /// partial function of the bytes (serde_json-1.x is not read by the verifier).
 pub trait ManifestJson: Sized {
     spec fn from_json(b: Seq<u8>) -> Option<Self>;
+}
+#[derive(Debug)]
+pub struct JsonError { pub _p: () }
+impl vstd::std_specs::convert::FromSpecImpl<JsonError> for ZipError {
+    open spec fn obeys_from_spec() -> bool { true }
+    open spec fn from_spec(e: JsonError) -> ZipError { ZipError { _p: () } }
+}
+impl From<JsonError> for ZipError { fn from(e: JsonError) -> (r: ZipError) { ZipError { _p: () } } }
+pub mod serde_json {
+    use vstd::prelude::*;
+    use super::{ManifestJson, JsonError};
+    /// serde_json-1.x `from_slice::<T>` (see `ManifestJson`)
+    #[verifier::external_body]
+    pub fn from_slice<T: ManifestJson>(b: &[u8]) -> (r: core::result::Result<T, JsonError>)
+        ensures
+            r is Ok <==> T::from_json(b@) is Some,
+            r is Ok ==> Some(r->Ok_0) == T::from_json(b@),
+    { unimplemented!() }
 }
 
 /// the archive that a zip file with the given bytes presents (async_zip central
@@ -74,15 +89,6 @@ impl<R> ZipReader<R> {
             r matches Ok(Some(b)) ==> b@ == old(self)@.entries[name@],
     { unimplemented!() }
 
-    /// crates/archive/src/reader.rs:48 `Reader::find_manifest::<T>`:
-    /// `by_name(ARCHIVE_MANIFEST)` then `serde_json::from_slice`.
-    #[verifier::external_body]
-    pub fn find_manifest<T: ManifestJson>(&mut self) -> (r: ZipResult<Option<T>>)
-        ensures
-            final(self)@ == old(self)@,
-            r matches Ok(o) ==> (o is Some <==> old(self)@.entries.contains_key(manifest_name())),
-            r matches Ok(Some(m)) ==> T::from_json(old(self)@.entries[manifest_name()]) == Some(m),
-    { unimplemented!() }
 }
 
 /// tokio::io::BufReader<R> (tokio-1.x src/io/util/buf_reader.rs): a wrapper; only constructed here
@@ -317,7 +323,7 @@ pub fn str_eq(a: &str, b: &str) -> (r: bool)
 pub fn vec_iter_find<'a, T, F: Fn(&T) -> bool>(v: &'a Vec<T>, f: F) -> (r: Option<&'a T>)
     requires forall|x: &T| call_requires(f, (x,)),
     ensures
-        r matches Some(x) ==> exists|i: int| 0 <= i < v@.len() && *x == v@[i] && call_ensures(f, (&v@[i],), true),
+        r matches Some(x) ==> exists|i: int| 0 <= i < v@.len() && *x == #[trigger] v@[i] && call_ensures(f, (&v@[i],), true),
         r is None ==> forall|i: int| 0 <= i < v@.len() ==> call_ensures(f, (&#[trigger] v@[i],), false),
 {
     let mut i: usize = 0;
@@ -333,3 +339,14 @@ pub fn vec_iter_find<'a, T, F: Fn(&T) -> bool>(v: &'a Vec<T>, f: F) -> (r: Optio
     }
     None
 }
+
+/// R12: `$a == $b` on two references of the same type whose `PartialEq` is structural (derived on
+/// `AccountId([u8; 20])`, crates/core/src/account.rs:10; core::str): equal bytes / equal characters
+pub trait EqStd: Sized {
+    spec fn eq_std_spec(self, other: Self) -> bool;
+}
+impl EqStd for &str { open spec fn eq_std_spec(self, other: &str) -> bool { self@ == other@ } }
+#[verifier::external_body]
+pub fn eq_std<T: EqStd + PartialEq>(a: T, b: T) -> (r: bool)
+    ensures r == a.eq_std_spec(b),
+{ a == b }
